@@ -96,6 +96,8 @@ PLANS = {
     "C09": {
         "quick": [ex("pratt", "pratt", 1, 4, alphabet=["a", "+", "*", "-", "!", "^"], modes=["E"], invariants=DEFAULT_INVARIANTS + ["PrattFlatten"]),
                   ex("prattP5", "prattP", 1, 5, alphabet=["a", "+", "*", "-"], modes=["E"], invariants=DEFAULT_INVARIANTS + ["PrattFlatten"]),
+                  ex("prattM", "prattM", 1, 4, alphabet=["a", "*", "-", "!"], modes=["E"], invariants=DEFAULT_INVARIANTS + ["PrattFlatten"]),
+                  ex("prattRec", "prattRec", 1, 4, alphabet=["a", "+", "*", "(", ")"], modes=["E"]),
                   rec("prattR", "pratt", 2500, 6, 9)],
         "thorough": [ex("pratt", "pratt", 1, 5, alphabet=["a", "+", "*", "-", "!", "^"], modes=["E"], timeout=4000, invariants=DEFAULT_INVARIANTS + ["PrattFlatten"]),
                      ex("prattC", "pratt", 1, 4, alphabet=["a", "+", "*", "-", "!", "^"], modes=["C"], timeout=3000, invariants=DEFAULT_INVARIANTS + ["PrattFlatten"]),
